@@ -10,7 +10,7 @@ Definition name0 : jname := {| n_mfr := 0; n_finst := 2; n_ecu := 1; n_func := 2
 Definition c16_nets (cfg : Z) : list auth :=
   map (auth_new 0 39 name0)
     (match cfg with
-     | 0 => [[dc key_laixer_hcu 74]]
+     | 0 | 8 => [[dc key_laixer_hcu 74]]      (* 8: one receive error on the receive socket before the request *)
      | 1 => [[dc key_kuebler_encoder 106; dc key_kuebler_encoder 107; dc key_kuebler_encoder 108; dc key_kuebler_encoder 109; dc key_kuebler_inclinometer 122];
              [dc key_volvo_d7e 0; dc key_laixer_vcu 18; dc key_laixer_hcu 74]]
      | 2 | 7 => [[dc key_laixer_hcu 74; dc key_kuebler_encoder 106; dc key_laixer_hcu 75]]   (* 7: interface dead at the signal *)
